@@ -303,7 +303,7 @@ def run_group(pid, g, scratch, tier, repo, keep_dir=None, trace=False, only_prop
             if m:
                 nobody.add(m.group(1))
         allowed = set(g.get("allow_no_body", []))
-        bad = sorted(x for x in nobody if x not in allowed and not x.startswith("__CPROVER") and not x.startswith("nondet_"))
+        bad = sorted(x for x in nobody if x not in allowed and "*" not in allowed and not x.startswith("__CPROVER") and not x.startswith("nondet_"))
         if bad:
             raise Undecided("functions without body and without contract: " + ", ".join(bad))
         for r in results:
@@ -438,7 +438,17 @@ def native_replay(pid, g, inputs, scratch, repo):
         for k in g.get("defines", []):
             cmd.append("-D" + k)
         cmd += [harness, os.path.join(VERIF, "replay", "replay_main.c")]
-        for s in g.get("native_sources", []):
+        nsrc = g.get("native_sources", [])
+        if nsrc == "ALL":
+            # the whole library (working-tree sources) except the file(s) the harness #includes itself
+            excl = set(g.get("native_exclude", []))
+            nsrc = []
+            for root, _d, files in os.walk(os.path.join(scratch, "src")):
+                for f in sorted(files):
+                    if f.endswith(".c") and f not in excl:
+                        nsrc.append(os.path.relpath(os.path.join(root, f), scratch))
+            cmd += ["-I", os.path.join(scratch, "src"), "-w"]
+        for s in nsrc:
             pl = os.path.join(scratch, "plain", os.path.basename(s))
             cmd.append(pl if os.path.exists(pl) else os.path.join(scratch, s))
         cmd += ["-lm", "-o", exe]
@@ -465,9 +475,9 @@ def select_groups(mod, tier, only=None):
     gs = []
     for g in mod.GROUPS:
         tiers = g.get("tiers", ("quick", "thorough"))
-        if tier not in tiers:
-            continue
         if only and g["name"] not in only:
+            continue
+        if tier not in tiers and not (only and g["name"] in only):
             continue
         gs.append(g)
     return gs
